@@ -58,7 +58,12 @@ pub struct Case {
     /// index into STATUSES (redirect following is switched off, so 3xx responses reach the caller)
     #[serde(default)]
     pub status: u8,
+    /// index into CONTENT_TYPES (0 = none): the media type says nothing about the content coding
+    #[serde(default)]
+    pub content_type: u8,
 }
+
+pub const CONTENT_TYPES: &[&str] = &["", "text/plain", "application/gzip", "application/x-gzip", "Application/GZIP; q=1", "application/octet-stream", "application/zlib", "application/json"];
 
 pub const STATUSES: &[u16] = &[200, 200, 200, 201, 206, 404, 500, 300, 301, 302, 307, 308];
 
@@ -117,7 +122,10 @@ fn token(coding: Coding, style: u8) -> Option<String> {
         // tokens that merely contain the name of a coding are other codings
         Coding::Other(5) => "gzipped",
         Coding::Other(6) => "nodeflate",
-        Coding::Other(_) => "zip",
+        Coding::Other(7) => "zip",
+        // registered codings of their own whose names end in the name of another
+        Coding::Other(8) => "pack200-gzip",
+        Coding::Other(_) => "vendor-deflate",
     };
     Some(match style % 8 {
         0 => base.to_string(),
@@ -195,7 +203,7 @@ non-trivial = payload non-empty and one of {>=2 deflate blocks, >=2 segments, a 
         let max = tier.pick(200 * 1024, 400 * 1024);
         (
             prop_oneof![3 => gen::small_payload(200), 2 => gen::payload(max)],
-            prop_oneof![4 => Just(Coding::Gzip), 4 => Just(Coding::Deflate), 2 => (0u8..8).prop_map(Coding::Other)],
+            prop_oneof![4 => Just(Coding::Gzip), 4 => Just(Coding::Deflate), 2 => (0u8..10).prop_map(Coding::Other)],
             encoder_strategy(),
             gz_strategy(),
             prop::bool::weighted(0.25),
@@ -210,9 +218,9 @@ non-trivial = payload non-empty and one of {>=2 deflate blocks, >=2 segments, a 
                 2 => any::<u16>().prop_map(Fault::Trunc),
                 2 => (0u8..64).prop_map(Fault::TrailerBit),
             ],
-            (prop::bool::weighted(0.85), 0u8..STATUSES.len() as u8),
+            (prop::bool::weighted(0.85), 0u8..STATUSES.len() as u8, prop_oneof![2 => Just(0u8), 3 => 1u8..CONTENT_TYPES.len() as u8]),
         )
-            .prop_map(|(payload, coding, encoder, gz, via_te, token_style, method, framing, seg, reads, fault, (allow_compression, status))| Case {
+            .prop_map(|(payload, coding, encoder, gz, via_te, token_style, method, framing, seg, reads, fault, (allow_compression, status, content_type))| Case {
                 payload,
                 coding,
                 encoder,
@@ -226,6 +234,7 @@ non-trivial = payload non-empty and one of {>=2 deflate blocks, >=2 segments, a 
                 fault,
                 allow_compression,
                 status,
+                content_type,
             })
             .boxed()
     }
@@ -293,6 +302,10 @@ non-trivial = payload non-empty and one of {>=2 deflate blocks, >=2 segments, a 
         for (body, cut, corrupt) in variants {
             ctx.sub_evals += 1;
             let mut headers: Vec<(String, Vec<u8>)> = vec![];
+            let ctype = CONTENT_TYPES[case.content_type as usize % CONTENT_TYPES.len()];
+            if !ctype.is_empty() {
+                headers.push(("Content-Type".into(), ctype.as_bytes().to_vec()));
+            }
             let mut te_override = None;
             if let Some(t) = &tok {
                 if case.via_te {
@@ -476,7 +489,8 @@ non-trivial = payload non-empty and one of {>=2 deflate blocks, >=2 segments, a 
         ctx.label_if(payload.len() > 65536, "payload>64KiB");
         ctx.label_if(matches!(case.token_style % 8, 3 | 5 | 6 | 7), "token-in-list");
         ctx.label_if(case.token_style % 8 == 4, "token-on-second-field-line");
-        ctx.label_if(matches!(case.coding, Coding::Other(5..=7)), "token-containing-a-coding-name");
+        ctx.label_if(CONTENT_TYPES[case.content_type as usize % CONTENT_TYPES.len()].to_ascii_lowercase().contains("gzip"), "content-type-names-gzip");
+        ctx.label_if(matches!(case.coding, Coding::Other(5..=9)), "token-containing-a-coding-name");
         Outcome::Pass
     }
 }
